@@ -30,10 +30,14 @@ func GeneratePackage(w io.Writer, packagePath string,
 
 	set := signature.NewTypeSet()
 	for _, typ := range pkg.Types {
+		itf, ok := typ.(*idl.InterfaceType)
+		if ok {
+			// the proxy templates title-case the interface name: use one spelling
+			itf.Name = signature.CleanName(itf.Name)
+		}
 		typ.RegisterTo(set)
 
 		idl.InterfaceTypeForStub = true
-		itf, ok := typ.(*idl.InterfaceType)
 		if ok {
 			err := generateInterface(file, set, itf)
 			if err != nil {
@@ -111,7 +115,19 @@ func generateSignalDef(itf *idl.InterfaceType, set *signature.TypeSet,
 	tuple *signature.TupleType, signalName string) (jen.Code, error) {
 
 	tuple.RegisterTo(set)
-	return jen.Id(signalName).Add(tuple.Params()).Error(), nil
+	return jen.Id(signalName).Add(cleanParams(tuple).Params()).Error(), nil
+}
+
+// cleanParams returns the tuple with member names usable as Go parameter names.
+func cleanParams(tuple *signature.TupleType) *signature.TupleType {
+	var clean signature.TupleType
+	for i, m := range tuple.Members {
+		clean.Members = append(clean.Members, signature.MemberType{
+			Name: signature.CleanVarName(i, m.Name),
+			Type: m.Type,
+		})
+	}
+	return &clean
 }
 
 func methodBodyBlock(itf *idl.InterfaceType, method idl.Method,
@@ -126,7 +142,8 @@ func methodBodyBlock(itf *idl.InterfaceType, method idl.Method,
 		writing = append(writing, code)
 	}
 
-	for _, param := range method.Params {
+	for i, param := range method.Params {
+		param.Name = signature.CleanVarName(i, param.Name)
 		params = append(params, jen.Id(param.Name))
 		code = jen.List(jen.Id(param.Name), jen.Err()).Op(":=").Add(
 			param.Type.Unmarshal("buf"),
@@ -219,7 +236,8 @@ func propertyBodyBlock(itf *idl.InterfaceType, property idl.Property,
 	code := jen.Var().Id("buf").Qual("bytes", "Buffer")
 	writing = append(writing, code)
 
-	for _, param := range property.Params {
+	for i, param := range property.Params {
+		param.Name = signature.CleanVarName(i, param.Name)
 		code = jen.If(jen.Err().Op(":=").Add(
 			param.Type.Marshal(param.Name, "&buf"),
 		).Op(";").Err().Op("!=").Nil()).Block(
@@ -253,7 +271,8 @@ func signalBodyBlock(itf *idl.InterfaceType, signal idl.Signal,
 	code := jen.Var().Id("buf").Qual("bytes", "Buffer")
 	writing = append(writing, code)
 
-	for _, param := range signal.Params {
+	for i, param := range signal.Params {
+		param.Name = signature.CleanVarName(i, param.Name)
 		code = jen.If(jen.Err().Op(":=").Add(
 			param.Type.Marshal(param.Name, "&buf"),
 		).Op(";").Err().Op("!=").Nil()).Block(
@@ -290,7 +309,7 @@ func generateSignalHelper(file *jen.File, itf *idl.InterfaceType,
 	}
 	file.Func().Params(
 		jen.Id("p").Op("*").Id(stubName(itf.Name)),
-	).Id(signalName).Add(tuple.Params()).Error().Add(body)
+	).Id(signalName).Add(cleanParams(tuple).Params()).Error().Add(body)
 	return nil
 }
 
@@ -304,7 +323,7 @@ func generatePropertyHelper(file *jen.File, itf *idl.InterfaceType,
 	}
 	file.Func().Params(
 		jen.Id("p").Op("*").Id(stubName(itf.Name)),
-	).Id(propertyName).Add(tuple.Params()).Error().Add(body)
+	).Id(propertyName).Add(cleanParams(tuple).Params()).Error().Add(body)
 	return nil
 }
 
@@ -585,7 +604,15 @@ func generateStubPropertyCallback(file *jen.File, itf *idl.InterfaceType) error 
 			),
 		)
 		writing = append(writing, code)
-		code = jen.Id(`return p.impl.On` + propertyName + `Change(prop)`)
+		args := []jen.Code{jen.Id("prop")}
+		if len(property.Params) != 1 {
+			args = []jen.Code{}
+			writing = append(writing, jen.Id("_ = prop"))
+			for _, param := range property.Params {
+				args = append(args, jen.Id("prop").Dot(signature.CleanName(param.Name)))
+			}
+		}
+		code = jen.Return().Id("p.impl.On" + propertyName + "Change").Call(args...)
 		writing = append(writing, code)
 		return nil
 	}
@@ -749,7 +776,7 @@ func generateObjectInterface(file *jen.File, set *signature.TypeSet,
 		definitions = append(definitions, jen.Comment(comment))
 
 		callback := jen.Id("On" + propertyName + "Change").Add(
-			property.Tuple().Params(),
+			cleanParams(property.Tuple()).Params(),
 		).Error()
 		definitions = append(definitions, callback)
 
